@@ -185,6 +185,10 @@ pub fn jacobi_eigenvalue<T: DualNum<F> + Copy, F: Float>(
     let mut bw = d.clone();
     let mut zw = Array1::zeros(n);
 
+    // once the real parts have converged, every further sweep annihilates one more order of the
+    // (nilpotent) derivative parts of the off-diagonal elements
+    let mut extra_sweeps = 0;
+
     for it_num in 0..max_iter {
         let mut thresh = F::zero();
         for j in 0..n {
@@ -195,7 +199,10 @@ pub fn jacobi_eigenvalue<T: DualNum<F> + Copy, F: Float>(
         thresh = thresh.sqrt() / F::from(n).unwrap();
 
         if thresh.is_zero() {
-            break;
+            if extra_sweeps == T::NDERIV {
+                break;
+            }
+            extra_sweeps += 1;
         }
 
         for p in 0..n {
@@ -204,21 +211,23 @@ pub fn jacobi_eigenvalue<T: DualNum<F> + Copy, F: Float>(
                 let termp = gapq + d[p].abs();
                 let termq = gapq + d[q].abs();
 
-                if 4 < it_num && termp == d[p].abs() && termq == d[q].abs() {
-                    a[(p, q)] = T::zero();
+                if 4 < it_num && extra_sweeps == 0 && termp == d[p].abs() && termq == d[q].abs() {
+                    // the real part is negligible, the derivative parts are treated in the extra sweeps
+                    a[(p, q)] = a[(p, q)] - a[(p, q)].re();
                 } else if thresh <= a[(p, q)].re().abs() {
                     let h = d[q] - d[p];
+                    if a[(p, q)].re().is_zero() && h.re().is_zero() {
+                        continue;
+                    }
                     let term = h.abs() + gapq;
 
-                    let t = if term == h.abs() {
+                    let t = if extra_sweeps == 0 && term == h.abs() {
                         a[(p, q)] / h
                     } else {
-                        let theta = h * F::from(0.5).unwrap() / a[(p, q)];
-                        let mut t = (theta.abs() + (theta * theta + F::one()).sqrt()).recip();
-                        if theta.is_negative() {
-                            t = -t;
-                        }
-                        t
+                        // t = sign(theta) / (|theta| + sqrt(theta^2 + 1)) with theta = h / (2 a), written
+                        // without the division by a (singular in the derivative parts for small a)
+                        let r = (h * h + a[(p, q)] * a[(p, q)] * F::from(4.0).unwrap()).sqrt();
+                        a[(p, q)] * F::from(2.0).unwrap() / if h.is_negative() { h - r } else { h + r }
                     };
 
                     let c = (t * t + F::one()).sqrt().recip();
